@@ -21,7 +21,7 @@ def r02_1(ctx):
     P = gt.positional_params()
     func, it, size = P[-3:]
     sl = [c for (n, c) in q.calls(gt, 'itertools.islice')]
-    ok = len(sl) == 1 and [ast.unparse(a) for a in sl[0].args] == [it, size]
+    ok = bool(sl) and all([ast.unparse(a) for a in c.args] == [it, size] for c in sl)
     ctx.ob('R02.1', '_get_tasks:batches-of-size', ok, gt, sl[0] if sl else None, 'x = tuple(itertools.islice(it, size))')
     ys = [n for n in walk_own(gt.node) if isinstance(n, ast.Yield)]
     xs = [ast.unparse(dn.ast.targets[0]) for (dn, t, v) in q.assigns(gt, None)
@@ -31,8 +31,24 @@ def r02_1(ctx):
     itd = [ast.unparse(v) for (dn, t, v) in q.assigns(gt, it) if v is not None]
     ctx.ob('R02.1', '_get_tasks:one-shared-iterator', itd == ['iter(%s)' % it], gt, None,
            'it = iter(it): successive islice calls continue where the last one stopped')
-    rets = [n for n in gt.cfg.where(lambda n: isinstance(n.ast, ast.Return))]
-    ok = bool(rets) and bool(xs) and all(q.has_guard(gt, r, q.norm_guard(gt, ast.Name(id=xs[0], ctx=ast.Load()), True)[0], False) for r in rets)
+    # the generator ends exactly when a batch came back empty, and yields only non-empty ones -- whatever the loop
+    # looks like (`while 1: x = ...; if not x: return; yield` or `x = ...; while x: yield; x = ...`)
+    ok = bool(xs) and len(set(xs)) == 1
+    rets = []
+    if ok:
+        gx = q.norm_guard(gt, ast.Name(id=xs[0], ctx=ast.Load()), True)[0]
+        empty_edges = {(a, b) for (a, b, l) in q.outcome_edges(gt, gx, False)}
+        for (a, l) in gt.cfg.pred[gt.cfg.exit.id]:
+            if l == 'x' or a not in gt.cfg.live:
+                continue
+            na = gt.cfg.nodes[a]
+            rets.append(na)
+            if not ((a, gt.cfg.exit.id) in empty_edges or q.has_guard(gt, na, gx, False)):
+                ok = False
+        ok = ok and bool(rets) and all(q.has_guard(gt, n_, gx, True) for n_ in gt.cfg.where(
+            lambda n: n.kind == 'stmt' and isinstance(n.ast, ast.Expr) and isinstance(n.ast.value, ast.Yield)))
+        # every batch that is tested or yielded is a fresh one: each definition of x is the islice
+        ok = ok and all(any(c is y for c in sl for y in ast.walk(v)) for (dn, t, v) in q.assigns(gt, xs[0]))
     ctx.ob('R02.1', '_get_tasks:stops-at-the-first-empty-batch', ok, gt, rets[0] if rets else None, 'if not x: return')
     ma = m.func('pool:Pool._map_async')
     gts = [c for (n, c) in q.calls(ma, 'Pool._get_tasks')]
